@@ -105,6 +105,30 @@ def dtmWin (u : Uc) (plane : Nat) (bs : List UInt8) : Uc :=
 def snap (u : Uc) : Snap :=
   { asleep := u.asleep, initialised := u.initialised, powered := u.powered, partialWin := u.partialOn }
 
+/-- a register (non-data) command on an awake controller, after it was logged -/
+def regStep (cmd : UInt8) (ps : List UInt8) (u : Uc) : Uc :=
+  if cmd = 0x12 then { u with refreshes := u.snap :: u.refreshes }
+  else if u.has14 ∧ cmd = 0x16 then
+    if ps.length = 8 then { u with refreshes := u.snap :: u.refreshes } else u
+  else if cmd = 0x04 then { u with powered := true }
+  else if cmd = 0x02 then { u with powered := false }
+  else if cmd = 0x07 then
+    match ps with
+    | [v] => if v = 0xA5 then { u with asleep := true, powered := false } else u
+    | _ => u
+  else if cmd = 0x91 then { u with partialOn := true }
+  else if cmd = 0x92 then { u with partialOn := false }
+  else if cmd = 0x90 then
+    match u.winFmt, ps with
+    | 9, [a, a', b, b', c, c', d, d', _] =>
+      { u with hs := word a a', he := word b b', vs := word c c', ve := word d d', winSet := true }
+    | 7, [a, b, c, c', d, d', _] =>
+      { u with hs := a.toNat, he := b.toNat, vs := word c c', ve := word d d', winSet := true }
+    | 5, [a, b, c, d, _] =>
+      { u with hs := a.toNat, he := b.toNat, vs := c.toNat, ve := d.toNat, winSet := true }
+    | _, _ => u
+  else u
+
 def feed (u : Uc) : Blk → Uc
   | .rst => { u.resetRegs with asleep := false, initialised := false, resetSeen := true }
   | .stray _ => u
@@ -118,28 +142,7 @@ def feed (u : Uc) : Blk → Uc
     else if u.has14 ∧ cmd = 0x14 then u.dtmWin 0 ps
     else if u.has14 ∧ cmd = 0x15 then u.dtmWin 1 ps
     else
-    let u := { u with regs := (cmd, ps) :: u.regs }
-    if cmd = 0x12 then { u with refreshes := u.snap :: u.refreshes }
-    else if u.has14 ∧ cmd = 0x16 then
-      if ps.length = 8 then { u with refreshes := u.snap :: u.refreshes } else u
-    else if cmd = 0x04 then { u with powered := true }
-    else if cmd = 0x02 then { u with powered := false }
-    else if cmd = 0x07 then
-      match ps with
-      | [v] => if v = 0xA5 then { u with asleep := true, powered := false } else u
-      | _ => u
-    else if cmd = 0x91 then { u with partialOn := true }
-    else if cmd = 0x92 then { u with partialOn := false }
-    else if cmd = 0x90 then
-      match u.winFmt, ps with
-      | 9, [a, a', b, b', c, c', d, d', _] =>
-        { u with hs := word a a', he := word b b', vs := word c c', ve := word d d', winSet := true }
-      | 7, [a, b, c, c', d, d', _] =>
-        { u with hs := a.toNat, he := b.toNat, vs := word c c', ve := word d d', winSet := true }
-      | 5, [a, b, c, d, _] =>
-        { u with hs := a.toNat, he := b.toNat, vs := c.toNat, ve := d.toNat, winSet := true }
-      | _, _ => u
-    else u
+    regStep cmd ps { u with regs := (cmd, ps) :: u.regs }
 
 def opEnd (u : Uc) (ok : Bool) : Uc :=
   if u.resetSeen then { u with initialised := ok, resetSeen := false } else u
